@@ -28,7 +28,19 @@ def p_never(v):
     return False
 
 
-PREDICATES = {"never": p_never}
+def p_bundle_id_scope_mismatch(v):
+    """F11b: the source document holds a bundle whose printed identifier does not denote
+    its URI in the document's own scope (only reachable through add_bundle with an
+    identifier whose prefix the document binds to another namespace)."""
+    sig = v.get("signature", [])
+    if len(sig) < 3:
+        return False
+    if not (sig[2] == "bundle-identifiers" or sig[2].startswith("read-raised")):
+        return False
+    return bool(v.get("facts", {}).get("bundle_id_scope_mismatch"))
+
+
+PREDICATES = {"never": p_never, "bundle_id_scope_mismatch": p_bundle_id_scope_mismatch}
 
 
 def predicate(name):
@@ -56,6 +68,10 @@ def attribute(prop, v):
         except Exception:
             continue
     return None
+
+
+def open_findings(prop):
+    return [f for f in _DATA.get("findings", []) if f.get("status") == "open" and prop in f.get("properties", [])]
 
 
 def describe(fid):
